@@ -4,7 +4,7 @@ import itertools
 import numpy as np
 import z3
 
-from symx.arr import SymArray, fresh
+from symx.arr import NPProxy, SymArray, fresh
 from symx.core import SC, SV, Explorer, concretize, differs, far, lift, toc
 from symx.harness import Tally, to_json
 from symx.twin import World
@@ -14,7 +14,8 @@ META = {
     "explanation": "Real code objects of gen.merge_mode_shapes, gen.MSF, gen.flatten_sns_names and "
                    "MultiSetup_PoSER.merge_results are executed on symbolic complex global shapes, symbolic real "
                    "non-zero per-setup/per-mode factors and every enumerated sensor layout (positions and order of "
-                   "the reference channels in each setup's channel list).",
+                   "the reference channels in each setup's channel list).  Rounding guard (O3): merge_results takes no square "
+                   "root of a term that is not non-negative by construction and can vanish (setups that agree exactly).",
     "bounds": {
         "quick": {"setups": "2 (all layouts), 3 (1 reference)", "references": "1..2", "roving/setup": "0..2",
                   "modes": "1..2", "entries": "complex symbolic", "factors": "real symbolic, 0.05<=|a|<=20"},
@@ -263,13 +264,23 @@ class _Res:
 
 def run_o3(cfg, tier):
     from pyoma2.setup import multi
-    W = World()
+    sqrt_args = []
+
+    def sqrt_hook(a, *aa, **kw):
+        from symx.arr import apply_ufunc, has_sym
+        if not has_sym(a):
+            return np.sqrt(a, *aa, **kw)
+        sqrt_args.extend(lift(x) for x in np.asarray(a, dtype=object).ravel())
+        return apply_ufunc(np.sqrt, "__call__", (a,), {})
+
+    W = World(overrides={"np": NPProxy(sqrt=sqrt_hook)})
     S, M = cfg["S"], cfg["modes"]
     tally = Tally(W, ["merge_results", "merge_mode_shapes", "MSF"])
     ex = Explorer(timeout_ms=30000)
     state = {}
 
     def body():
+        del sqrt_args[:]
         fn = [[fresh(f"fn_{i}_{k}") for k in range(M)] for i in range(S)]
         xi = [[fresh(f"xi_{i}_{k}") for k in range(M)] for i in range(S)]
         state["fn"], state["xi"] = fn, xi
@@ -307,6 +318,12 @@ def run_o3(cfg, tier):
                 bad += [differs(got_mean[k], mean), differs(got_cov[k], spec_cov)]
                 rob += [far(got_mean[k], mean, 1e-6), far(got_cov[k], spec_cov, 1e-6)]
         tally.decide(e, z3.Or(*bad), pos, robust=z3.Or(*rob), on_sat=lambda m: cex_o3(cfg, fn, xi, m, None))
+        # rounding guard: a square root whose argument is not non-negative by construction (a difference) and can vanish
+        # - setups that agree exactly, the noise-free case - may be handed a slightly negative float
+        risky = [a for a in sqrt_args if not a.nn]
+        if risky and not tally.stop:
+            tally.decide(e, z3.Or(*[a.v == 0 for a in risky]), pos, on_sat=lambda m: cex_ties(cfg, fn, xi, m, tally),
+                         label="no square root of a cancelling difference")
     return tally.result(ex)
 
 
@@ -314,6 +331,25 @@ def cex_o3(cfg, fn, xi, m, note):
     inputs = {"fn": [[concretize(m, v) for v in r] for r in fn], "xi": [[concretize(m, v) for v in r] for r in xi]}
     viol, detail, key = replay_o3(cfg, inputs)
     return {"inputs": inputs, "reproduced": viol, "detail": (note + "; " if note else "") + detail, "key": key}
+
+
+def cex_ties(cfg, fn, xi, m, tally):
+    """the solver's model makes a square-root argument vanish; whether float rounding then bites depends on the values: the
+    real code is replayed on the model and on seeded exact ties (all setups report the same value)"""
+    note = "square root of a difference that vanishes when the setups agree (cancellation under rounding)"
+    c = cex_o3(cfg, fn, xi, m, note)
+    if c["reproduced"]:
+        return c
+    rng = np.random.RandomState(9)
+    S, M = len(fn), len(fn[0])
+    for _ in range(200):
+        inputs = {"fn": np.tile(rng.uniform(0.2, 90.0, M), (S, 1)).tolist(), "xi": np.tile(rng.uniform(0.2, 5.0, M), (S, 1)).tolist()}
+        viol, detail, key = replay_o3(cfg, inputs)
+        if viol:
+            return {"inputs": inputs, "reproduced": True, "detail": note + "; " + detail, "key": key}
+    # the abstraction only says rounding MAY bite; nothing reproduced on the real code: inconclusive, not a violation
+    tally.inconclusive += 1
+    return None
 
 
 def replay_o3(cfg, inputs):
@@ -341,7 +377,7 @@ def replay_o3(cfg, inputs):
         cov = src.std(axis=0) / mean
         if not np.allclose(getattr(res, name), mean, rtol=1e-9, atol=1e-12):
             return True, f"{name}={getattr(res, name)} != mean {mean}", f"merge_results:{name}-mean"
-        if not np.allclose(getattr(res, name + "_cov"), cov, rtol=1e-7, atol=1e-10):
+        if not np.all(np.isfinite(getattr(res, name + "_cov"))) or not np.allclose(getattr(res, name + "_cov"), cov, rtol=1e-7, atol=1e-10):
             return True, f"{name}_cov={getattr(res, name + '_cov')} != std/mean {cov}", f"merge_results:{name}-cov"
     return False, "means and population std / mean as specified", None
 
